@@ -1,5 +1,6 @@
 import Holpy.C18.Model
 import Holpy.C18.ModelSimp
+import Holpy.C18.ModelPred
 /-
 C18 — the table of modelled rules (`Rule`, `evalRule`), what well-typedness adds (`wellKinded`) and
 the model of whole proofs in evaluation mode.  Import-free (project files only).
@@ -63,6 +64,7 @@ inductive Rule where
   | connectiveDef
   | subproof
   | congRule
+  | eqCongruentPred
   deriving DecidableEq, Repr
 
 def Rule.ofName : String → Option Rule
@@ -120,6 +122,7 @@ def Rule.ofName : String → Option Rule
   | "verit_connective_def" => some .connectiveDef
   | "verit_subproof" => some .subproof
   | "verit_cong" => some .congRule
+  | "verit_eq_congruent_pred" => some .eqCongruentPred
   | _ => none
 
 def Rule.name : Rule → String
@@ -177,8 +180,9 @@ def Rule.name : Rule → String
   | .connectiveDef => "verit_connective_def"
   | .subproof => "verit_subproof"
   | .congRule => "verit_cong"
+  | .eqCongruentPred => "verit_eq_congruent_pred"
 
-def Rule.all : List Rule := [.notOr, .notAnd, .andRule, .orRule, .impliesRule, .notImplies1, .notImplies2, .equiv1, .equiv2, .notEquiv1, .notEquiv2, .ite1, .ite2, .notIte1, .notIte2, .contraction, .notNot, .andPos, .andNeg, .orPos, .orNeg, .impliesPos, .impliesNeg1, .impliesNeg2, .equivPos1, .equivPos2, .equivNeg1, .equivNeg2, .xorPos1, .xorPos2, .xorNeg1, .xorNeg2, .itePos1, .itePos2, .iteNeg1, .iteNeg2, .falseRule, .thResolution, .eqReflexive, .laDisequality, .laRwEq, .eqTransitive, .transRule, .eqCongruent, .notSimplify, .andSimplify, .orSimplify, .impliesSimplify, .equivSimplify, .boolSimplify, .iteSimplify, .connectiveDef, .subproof, .congRule]
+def Rule.all : List Rule := [.notOr, .notAnd, .andRule, .orRule, .impliesRule, .notImplies1, .notImplies2, .equiv1, .equiv2, .notEquiv1, .notEquiv2, .ite1, .ite2, .notIte1, .notIte2, .contraction, .notNot, .andPos, .andNeg, .orPos, .orNeg, .impliesPos, .impliesNeg1, .impliesNeg2, .equivPos1, .equivPos2, .equivNeg1, .equivNeg2, .xorPos1, .xorPos2, .xorNeg1, .xorNeg2, .itePos1, .itePos2, .iteNeg1, .iteNeg2, .falseRule, .thResolution, .eqReflexive, .laDisequality, .laRwEq, .eqTransitive, .transRule, .eqCongruent, .notSimplify, .andSimplify, .orSimplify, .impliesSimplify, .equivSimplify, .boolSimplify, .iteSimplify, .connectiveDef, .subproof, .congRule, .eqCongruentPred]
 
 /-- `eval` of the macro registered under the rule name; `sizes` is only read by resolution -/
 def evalRule : Rule → List Tm → List Nat → List Seq → Except Err Seq
@@ -236,6 +240,7 @@ def evalRule : Rule → List Tm → List Nat → List Seq → Except Err Seq
   | .connectiveDef, cl, _, _ => Holpy.C18.connectiveDef cl
   | .subproof, cl, _, ps => Holpy.C18.subproof cl ps
   | .congRule, cl, _, ps => Holpy.C18.congRule cl ps
+  | .eqCongruentPred, cl, _, _ => Holpy.C18.eqCongruentPred cl
 
 /-- the goal of a simplification rule `lhs <--> rhs` is `equals` at type bool -/
 def goalIsIff : List Tm → Bool
@@ -267,6 +272,18 @@ def wellKinded : Rule → List Tm → List Seq → Bool
   | .orSimplify, cl, _ => goalIsIff cl
   | .impliesSimplify, cl, _ => goalIsIff cl
   | .boolSimplify, cl, _ => goalIsIff cl
+  | .eqCongruentPred, cl, _ =>
+    -- the last literal is not itself a disjunction (so the disjuncts of `Or(*args)` are the arguments), the
+    -- equalities are first-order, the two atoms have the same number of arguments
+    (match cl.reverse with
+     | a1 :: a2 :: rest =>
+       notDisj a1 &&
+       (match destNegEqs rest.reverse with
+        | some es => es.all (fun e => e.1 == 7)
+        | none => true) &&
+       (if isNot a2 then (args (notArg a2)).length == (args a1).length
+        else (args a2).length == (args (notArg a1)).length)
+     | _ => true)
   | .congRule, cl, ps =>
     -- NOT implied by well-typedness: either all premises are first-order equalities (and both sides have the
     -- same number of arguments), or the goal is an equivalence between two formulas built by a connective
@@ -283,8 +300,12 @@ def wellKinded : Rule → List Tm → List Seq → Bool
   | .connectiveDef, cl, _ => goalIsIff cl && (match goalEq cl with
     | some (_, l, _) => notFoEq l
     | none => true)
-  | .equivSimplify, cl, _ => goalIsIff cl && (match goalEq cl with      -- … and so are the equivalences it rewrites
-    | some (_, l, r) => notFoEq l && notFoEq r
+  | .equivSimplify, cl, _ => goalIsIff cl && (match goalEq cl with      -- … and so are the equivalences it rewrites:
+    -- the left side always; the right side only where the rule takes it apart (`(¬c <--> ¬d) <--> (c <--> d)`: `c` is
+    -- negated on the left, so it is a formula).  Elsewhere the right side is any formula, e.g. an equation `s = t`.
+    | some (_, l, r) => notFoEq l && (match l with
+      | mkIff (mkNot _) (mkNot _) => notFoEq r
+      | _ => true)
     | none => true)
   | .notEquiv2, _, p :: _ => match p.prop with
     | mkNot (mkEq _ _) => false
